@@ -316,3 +316,13 @@ package analysis
 //@   ensures[exempt-only-for-a-definition-on-the-line-of-the-read] result ==> binParentExp != nil && loc.StartLine == findVar.Loc.StartLine
 //@   ensures[exempt-only-inside-a-comparison-or-a-logical-operator] result ==> binParentExp.Op == lexer.TkOpEq || binParentExp.Op == lexer.TkOpNe || binParentExp.Op == lexer.TkOpAnd || binParentExp.Op == lexer.TkOpOr
 //@ end
+
+// ---- C06 / C11: the reference walk replaces `self` by the method's table only when that self is not shadowed ----
+//@ func (*Analysis).findNameStr
+//@   props C06 C11
+//@   at call ChangeSelfToReferVar#0 before assert[self-is-rewritten-only-when-it-is-not-shadowed] hits("isShadowedSelf#0") == 1 && !lastresult("isShadowedSelf#0")
+//@ end
+//@ func (*Analysis).isShadowedSelf
+//@   props C06 C11
+//@   at call FindLocVar#0 before assert[shadowing-is-decided-by-a-scope-lookup-at-the-occurrence] arg0 == a.curScope && streq(arg1, "self") && arg2 == node.Loc
+//@ end
